@@ -360,4 +360,76 @@ theorem rtpg_roundtrip (gs : List (Vals × List Vals)) (h : ∀ g ∈ gs, TpgOK 
   rw [List.append_nil] at this
   exact this
 
+/-! ## REPORT LUNS -/
+
+theorem lun_ok : C05.pairOK (lunEntry, Gen.ReportLuns_datain_bits) = true ∧ covers Gen.ReportLuns_datain_bits lunEntry = true := by
+  decide +kernel
+
+theorem mapM_mapIdx_ok {α β γ : Type} (f : Nat × β → Except PyErr γ) (e : Nat → α → β) (g : α → γ) (l : List α) (k : Nat)
+    (h : ∀ i, ∀ x ∈ l, f (k + i, e (k + i) x) = .ok (g x)) :
+    ((l.mapIdx (fun i x => e (k + i) x)).mapIdx (fun i y => (k + i, y))).mapM f = .ok (l.map g) := by
+  induction l generalizing k with
+  | nil => rfl
+  | cons x xs ih =>
+    simp only [List.mapIdx_cons, List.mapM_cons, Nat.add_zero, List.map_cons]
+    have h0 : f (k, e k x) = .ok (g x) := by have := h 0 x (by simp); simpa using this
+    have hrest := ih (k + 1) (fun i y hy => by
+      have := h (i + 1) y (by simp [hy])
+      have e1 : k + 1 + i = k + (i + 1) := by omega
+      rw [e1]; exact this)
+    have e2 : ∀ i, k + 1 + i = k + (i + 1) := by intro i; omega
+    simp only [e2] at hrest
+    rw [h0, bind_ok, hrest, bind_ok]
+    rfl
+
+theorem mapM_mapIdx_ok0 {α β γ : Type} (f : Nat × β → Except PyErr γ) (e : Nat → α → β) (g : α → γ) (l : List α)
+    (h : ∀ i, ∀ x ∈ l, f (i, e i x) = .ok (g x)) :
+    ((l.mapIdx (fun i x => e i x)).mapIdx (fun i y => (i, y))).mapM f = .ok (l.map g) := by
+  have := mapM_mapIdx_ok f e g l 0 (fun i x hx => by simpa using h i x hx)
+  simpa using this
+
+/-- one LUN entry under the key the parser gave it (`lun<i>`) rebuilds to the 8-byte entry -/
+theorem lun_rebuild_one (i : Nat) (v : Vals) (hr : InRangeD lunEntry.rel v) :
+    (do let l ← Enc.asDict (PV.dict [("lun" ++ toString i, .int (v "lun"))])
+        let x := match l.get? ("lun" ++ toString i) with
+          | some x => x
+          | Option.none => (l.get? "lun").getD (.int 0)
+        encodeFrom [("lun", x)] Gen.ReportLuns_datain_bits (zeros 8)) = (.ok (lunEntry.enc v) : Except PyErr Bytes) := by
+  have he := encodeFrom_reported lunEntry _ lun_ok.1 lun_ok.2 v hr
+  rw [lun_reported] at he
+  rw [show Enc.asDict (PV.dict [("lun" ++ toString i, PV.int (v "lun"))]) = .ok [("lun" ++ toString i, PV.int (v "lun"))] from rfl, bind_ok]
+  have hg : PDict.get? [("lun" ++ toString i, PV.int (v "lun"))] ("lun" ++ toString i) = some (.int (v "lun")) := by
+    simp [PDict.get?]
+  simp only [hg]
+  exact he
+
+/-- **bytes → dict → bytes** for REPORT LUNS: the entries the parser reports under `lun0`, `lun1`, … rebuild, in order,
+    to the LUN list with LUN LIST LENGTH (n−7) recomputed -/
+theorem reportLuns_rebuild (luns : List Vals) (hr : ∀ v ∈ luns, InRangeD lunEntry.rel v) :
+    Enc.reportLuns [("luns", .list (luns.mapIdx (fun i v => PV.dict [("lun" ++ toString i, .int (v "lun"))])))] =
+      .ok (encReportLuns luns) := by
+  unfold Enc.reportLuns
+  rw [show PDict.get? [("luns", PV.list (luns.mapIdx (fun i v => PV.dict [("lun" ++ toString i, PV.int (v "lun"))])))] "luns"
+      = some (.list (luns.mapIdx (fun i v => PV.dict [("lun" ++ toString i, PV.int (v "lun"))]))) from by simp [PDict.get?]]
+  dsimp only
+  rw [mapM_mapIdx_ok0 _ (fun i v => PV.dict [("lun" ++ toString i, PV.int (v "lun"))]) lunEntry.enc luns
+    (fun i v hv => lun_rebuild_one i v (hr v hv)), bind_ok]
+  have hlen : ((luns.map lunEntry.enc).flatten).length = 8 * luns.length := by
+    rw [flatten_length_const 8 _ (by
+      intro y hy
+      obtain ⟨v, _, rfl⟩ := List.mem_map.mp hy
+      exact enc_length _ v)]
+    simp
+  unfold encReportLuns
+  simp only [pure, Except.pure]
+  rw [hlen, toBytes_eq_intToBa]
+  rfl
+
+theorem reportLuns_roundtrip (luns : List Vals) (hr : ∀ v ∈ luns, InRangeD lunEntry.rel v) (hfit : 8 * luns.length < 2 ^ 32) :
+    ∃ d, Dec.reportLuns (encReportLuns luns) = .ok (.dict d) ∧ Enc.reportLuns d = .ok (encReportLuns luns) := by
+  refine ⟨[("luns", .list (luns.mapIdx (fun i v => PV.dict [("lun" ++ toString i, .int (v "lun"))])))], ?_, reportLuns_rebuild luns hr⟩
+  have := reportLuns_decodes luns hr hfit []
+  rw [List.append_nil] at this
+  exact this
+
 end C06
